@@ -576,6 +576,37 @@ def r_borrowed_r11_13(idx, r):
     r7_dehomogenisation_range(idx, Only(r, ["branch:children"]))
 
 
+def r14_mapped_names_unique_and_zero_skip(idx, r):
+    """(a) the converters hand ParamMapper a list of block parameter names WITHOUT duplicates (the categories overlap): values are accumulated
+    with `+=` per listed name, so a name listed twice is mapped twice.  (b) Block.adjustDensity - what setHeight(conserveMass=True) uses -
+    leaves exactly the nuclides with density zero alone; a threshold would stop rescaling trace nuclides (bred Pu, Am) and their atoms would
+    change with the height."""
+    umc = idx.cls(UM + ".UniformMeshGeometryConverter")
+    n = 0
+    for c in idx.subclasses(umc):
+        f = c.methods.get("_setParamsToUpdate")
+        if f is None:
+            continue
+        pm = [x for x in iter_calls(f.node) if norm(x.func).endswith("ParamMapper")]
+        for call in pm:
+            if len(call.args) < 2 or not isinstance(call.args[1], ast.Name):
+                continue
+            n += 1
+            nm = call.args[1].id
+            defs = [x for x in walk_local(f.node) if isinstance(x, ast.Assign) and any(norm(t) == nm for t in x.targets) and x.lineno < call.lineno]
+            r.require(bool(defs) and "set(" in norm(defs[-1].value), f"{c.name}._setParamsToUpdate:names-de-duplicated", f, node=call,
+                      msg=f"`{nm}` reaches ParamMapper as `{norm(defs[-1].value) if defs else '?'}`: a parameter that belongs to two of the mapped categories is listed twice and its mapped value is added twice")
+    if n < 2:
+        raise AnchorMissing("_setParamsToUpdate: ParamMapper(reactorParamNames, blockParamNames, b)")
+    g = idx.method("armi.reactor.blocks.Block", "adjustDensity")
+    skips = [x for x in walk_local(g.node) if isinstance(x, ast.If) and any(isinstance(y, ast.Continue) for y in x.body)]
+    if not skips:
+        raise AnchorMissing("Block.adjustDensity: the zero skip")
+    for x in skips:
+        r.require(not any(isinstance(o, (ast.Lt, ast.Gt, ast.LtE, ast.GtE)) for y in ast.walk(x.test) if isinstance(y, ast.Compare) for o in y.ops), "Block.adjustDensity:only-zeros-are-skipped", g, node=x,
+                  msg=f"a nuclide is left alone when `{norm(x.test)}`: small but non-zero densities are no longer rescaled, so re-meshing with mass conservation changes their atom count by the height ratio")
+
+
 def run(idx, chk):
     chk.explanation = (
         "C11: the two overlap-mapping functions are typed with role generators for overlap / destination / source heights: densities scale by "
@@ -611,3 +642,5 @@ def run(idx, chk):
                  necessary="atoms of every nuclide and the volume are conserved when the mesh changes")
     chk.run_rule("R11.13", "clause of C02: the block-level branch of a dehomogenised query walks the children (R02.7)", lambda r: r_borrowed_r11_13(idx, r), floor=1,
                  necessary="block quantities used by the mappers are sums over the components")
+    chk.run_rule("R11.14", "mapped parameter names are de-duplicated; adjustDensity skips only zero densities", lambda r: r14_mapped_names_unique_and_zero_skip(idx, r), floor=3,
+                 necessary="integral quantities and atoms of every nuclide are conserved by the mapping")
